@@ -18,7 +18,8 @@ RULE = (
     "foreign parent, ready rules of strategies that do not apply. 60% of the universes satisfy the STRONG "
     "contract (a possibly_empty=False strategy never has an empty child, symmetries preserve emptiness), the "
     "others only random_universe's weaker one (an empty parent may have empty children under any strategy), "
-    "so the emptiness cache can be poisoned. Hand-made corner cases come from harness/corpus/C04. Each "
+    "so the emptiness cache can be poisoned; ~1.5% of the start classes are empty (they get the empty rule and "
+    "are not expanded). Hand-made corner cases come from harness/corpus/C04. Each "
     "universe is searched to queue exhaustion by the real CombinatorialSpecificationSearcher with RuleDB, "
     "RuleDBForgetStrategy, RuleDBForest(reverse=False/True), expand_verified on/off, classes stored "
     "compressed (to_bytes) or not, driven by _expand_classes_for or by do_level; the packets handed out by "
@@ -537,6 +538,8 @@ def oracle(case, res):
     empty_rule_for = {}
     last_add = None
     keystack = []
+    nadds = 0
+    init_empty = False
     for idx, e in enumerate(events):
         tag = e[0]
         if tag == 0:
@@ -550,16 +553,25 @@ def oracle(case, res):
             if forest:
                 keystack.append([e, _expected_keys(u, case, classes, e, strong)])
             if sid == -1:
-                if not forest:
-                    return "empty rule added to a pruning database: %r" % (e,)
                 if ends:
                     return "empty rule with children %r" % (e,)
-                if not em[parent]:     # empty_strategy asks the class itself
+                if not em[parent]:     # EmptyStrategy asks the class itself
                     return "empty rule recorded for the non-empty class %d" % parent
+                nadds += 1
+                if nadds == 1 and parent == u["start"] and start == 0:
+                    # the searcher's own empty rule for an empty start class (every database); the forest
+                    # database does not know about it (_already_empty), so it is not counted below
+                    init_empty = True
+                    continue
+                if not forest:
+                    return "empty rule added to a pruning database (not for the start class at start-up): %r" % (e,)
                 if start in empty_rule_for:
                     return "label %d received the empty rule twice" % start
                 empty_rule_for[start] = idx
                 continue
+            nadds += 1
+            if em[u["start"]] and not init_empty:
+                return "the empty start class was not given the empty rule before anything else was recorded: %r" % (e,)
             if (sid, parent) not in produced:
                 return "recorded rule (strategy %d, class %d) is yielded by no strategy of the pack" % (sid, parent)
             ent = u["strats"][sid]["apply"].get(str(parent))
@@ -592,6 +604,10 @@ def oracle(case, res):
             _, eqv, start, ends, sid, parent = e
             if last_add is None or last_add[1] != start or last_add[3] != sid or last_add[4] != parent:
                 return "store %r does not belong to the last add %r" % (e, last_add)
+            if sid == -1:
+                if ends or eqv:
+                    return "the empty rule is stored as %r" % (e,)
+                continue
             ent = u["strats"][sid]["apply"].get(str(parent))
             if ent is None:
                 return "stored a rule of strategy %d on class %d, to which it does not apply" % (sid, parent)
@@ -638,6 +654,8 @@ def oracle(case, res):
                 return "forest key %r differs from the key %r of the rule added by %r" % (e, want[:3], keystack[-1][0])
             if want[3] is not None and b != want[3]:
                 return "forest key %r has bucket %d, expected %d" % (e, b, want[3])
+    if em[u["start"]] and status == 0 and not init_empty:
+        return "the empty start class never received the empty rule"
     # no rule for a strategy that does not apply / every applicable plain rule of an expanded packet is recorded:
     # (completeness is not part of C04's statement; only checked through the model correspondence)
     return None
@@ -673,10 +691,13 @@ def features(case, res):
         feats.add("lazy_rule_does_not_apply")
     last = None
     ninf = 0
+    first_add = next((x for x in events if x[0] == 0), None)
     for e in events:
         if e[0] == 0:
             last = e
-            if e[3] == -1:
+            if e[3] == -1 and e is first_add and e[4] == u["start"]:
+                feats.add("empty_start_rule")
+            elif e[3] == -1:
                 feats.add("empty_rule")
                 feats.add("dropped_empty_child")
             elif (e[3], e[4]) in foreign:
@@ -798,7 +819,8 @@ LEVEL_TEXT = (
     "C04_recorded_from_table (every ruledb.add(start, ends, rule): the rule is yielded by a strategy of the table "
     "applied to a class the database knows, the table has an entry for (strategy, parent), start is the label of "
     "the rule's PARENT, ends are the labels of the table's children in order - all, or the first one for the "
-    "calls of _symmetry_expand; the only other rule is the forest's empty rule, and only for a truly empty class), "
+    "calls of _symmetry_expand; the only other rule is the empty rule - for an empty start class under every "
+    "database, or by RuleDBForest for an empty child - and only under the label of a truly empty class), "
     "C04_no_rule_when_not_applicable (no event for a strategy without table entry, also lazily through "
     "rule.children; the self-equivalence is never recorded), C04_labels / C04_labels_stable (different classes "
     "never share a label, a label never changes later in the run), C04_stored_key_partial (the key RuleDBBase "
